@@ -22,6 +22,8 @@ pub struct Material {
   pub snippets: Vec<String>,      // texts of small named nodes
   pub fields: Vec<String>,
   pub ranges: Vec<(usize, usize, usize, usize)>,
+  /// (context text, selector kind) for contextual patterns: a small node and the kind of one of its descendants
+  pub contexts: Vec<(String, String)>,
 }
 
 pub fn harvest(root: &N, lang: SupportLang, rng: &mut Rng) -> Material {
@@ -29,9 +31,18 @@ pub fn harvest(root: &N, lang: SupportLang, rng: &mut Rng) -> Material {
   let mut snippets = vec![];
   let mut ranges = vec![];
   let mut fields = vec![];
+  let mut contexts: Vec<(String, String)> = vec![];
   let tsl = lang.get_ts_language();
   for n in root.dfs() {
     if n.is_named() {
+      if contexts.len() < 60 && rng.chance(1, 4) {
+        let t = n.text();
+        if t.len() <= 50 && !t.contains('\n') && !t.contains('"') && !t.contains('\\') && !t.contains('\'') {
+          if let Some(d) = n.dfs().skip(1).filter(|d| d.is_named() && !d.kind().is_empty() && d.kind() != "ERROR").last() {
+            contexts.push((t.to_string(), d.kind().to_string()));
+          }
+        }
+      }
       let k = n.kind().to_string();
       if !kinds.contains(&k) && !k.is_empty() {
         kinds.push(k);
@@ -64,7 +75,7 @@ pub fn harvest(root: &N, lang: SupportLang, rng: &mut Rng) -> Material {
       }
     }
   }
-  Material { kinds, snippets, fields, ranges }
+  Material { kinds, snippets, fields, ranges, contexts }
 }
 
 pub struct Knobs {
@@ -113,7 +124,19 @@ fn holed(snippet: &str, rng: &mut Rng, k: &mut Knobs) -> String {
 pub fn gen_atomic(m: &Material, rng: &mut Rng, k: &mut Knobs) -> Value {
   match rng.below(10) {
     0..=3 if !m.snippets.is_empty() => {
+      // object form now and then: a contextual pattern (context + selector) and / or a strictness
+      if !m.contexts.is_empty() && rng.chance(1, 6) {
+        let (c, sel) = rng.pick(&m.contexts).clone();
+        let mut p = json!({"context": holed(&c, rng, k), "selector": sel});
+        if rng.chance(1, 3) {
+          p["strictness"] = json!(rng.pick(&["cst", "smart", "ast", "relaxed", "signature"]));
+        }
+        return json!({"pattern": p});
+      }
       let s = rng.pick(&m.snippets).clone();
+      if rng.chance(1, 6) {
+        return json!({"pattern": {"context": holed(&s, rng, k), "strictness": rng.pick(&["cst", "smart", "ast", "relaxed", "signature"])}});
+      }
       json!({"pattern": holed(&s, rng, k)})
     }
     4..=5 if !m.kinds.is_empty() => json!({"kind": rng.pick(&m.kinds)}),
